@@ -37,7 +37,7 @@ FAMILIES = ["Fedora", "Fedora Server", "Fedora-Rawhide", "Red Hat Enterprise Lin
             "Red Hat Enterprise Linux Client", "CentOS", "CentOS Stream", "EulerOS V2.0SP5", "JBEAP", "Subscription Asset Manager",
             "Red Hat Storage", "Red Hat Storage Software Appliance", "Foo", "fedora", "Red Hat", "Scientific Linux"]
 VERSIONS = ["5.3", "5.0", "5", "5.11", "6.1", "3.9", "4.8", "21", "7.0-Beta", "Beta-1", "1_2", "Rawhide", "2-x-3.1", "-", "_", "1.",
-            "٣", "5.0-Beta_2", "x-5.1", "50"]
+            "٣", "5.0-Beta_2", "x-5.1", "50", "Beta-1_2", "x-5.1-6", "rc_3-4.1", "a-1-b-2", "Beta-5.2_6", "b_5-x"]
 RHEL5_ARCHES = ["i386", "ia64", "x86_64", "ppc", "s390x", "ppc64"]
 COMPAT_ARCHES = ["general", "stage2", "checksums", "images-xen", "images-"]
 LEGACY_PATHS = ["repo/", "repo//", "x/repodata", "repodata", "/repodata", "x/repodata/", ".", "", "./", "Packages", "/abs/Packages", "/",
@@ -182,7 +182,7 @@ def expect(spec, mv):
       arch, integer timestamp (within 2^53: the reader goes through float), platforms = architecture + platforms with images,
       release name / version through the family table / milestone rule, exactly one variant called like [general] variant
       (no children unless the RHEL 5 addon table applies), its paths from [general] packagedir / repository outside the
-      RHEL / Fedora layouts, checksums / images / stage2 as the current reader returns them when no path is absolute, no media."""
+      RHEL / Fedora layouts, checksums / images / stage2 as the current reader returns them (an absolute instimage repaired), no media."""
     f = facts(spec, mv)
     key, arch = f["general_variant"], f["arch"]
     g = TF.expected_general(spec, mv)
@@ -203,10 +203,21 @@ def expect(spec, mv):
         pk = ((g["packagedir"] if g.get("packagedir") is not None else repo) or "").rstrip("/") or "."
         want["variant.paths"] = ([["source_packages", pk], ["source_repository", repo]] if arch == "src"
                                  else [["packages", pk], ["repository", repo]])
-    if not f["absolute_paths"]:
-        n = TF.canon_spec(TF.norm_spec(spec), with_parent=False)
-        want["checksums"], want["images"], want["stage2"] = n["checksums"], n["images"], n["stage2"]
+    # validate() refuses absolute checksum / image / mainimage paths on write, so in a written file only instimage can be
+    # absolute; pre-productmd files carried absolute paths and the documented repair is: keep what follows the first "/os/",
+    # else drop the leading slashes
+    n = TF.canon_spec(TF.norm_spec(spec), with_parent=False)
+    want["checksums"], want["images"] = n["checksums"], n["images"]
+    want["stage2"] = dict(n["stage2"], instimage=fix_path(n["stage2"]["instimage"]))
     return must_load, want
+
+
+def fix_path(path):
+    if path and path.startswith("/"):
+        if "/os/" in path:
+            return path[path.find("/os/") + 4:]
+        return path.lstrip("/")
+    return path
 
 
 def observe(snap):
